@@ -49,6 +49,7 @@ type vcGPU struct {
 	Variant string `json:"var,omitempty"`
 	Free    uint64 `json:"free"`
 	Min     uint64 `json:"min"`
+	ID      string `json:"id,omitempty"` // default: the index
 }
 
 type vcCfg struct {
@@ -126,6 +127,9 @@ func vcGpuList(cfg *vcCfg) discover.GpuInfoList {
 	var l discover.GpuInfoList
 	for i, g := range cfg.GPUs {
 		gi := discover.GpuInfo{Library: g.Lib, Variant: g.Variant, MinimumMemory: g.Min, ID: strconv.Itoa(i)}
+		if g.ID != "" {
+			gi.ID = g.ID
+		}
 		gi.FreeMemory = g.Free
 		gi.TotalMemory = g.Free
 		l = append(l, gi)
@@ -164,7 +168,7 @@ type vcDerived struct {
 
 // vcOp recomputes what the estimator derives from file and environment, with the functions
 // the estimator itself calls, and renders the oracle command.
-func vcOp(cfg *vcCfg, l *vcLoaded, groups []discover.GpuInfoList) (string, vcDerived) {
+func vcOp(cfg *vcCfg, l *vcLoaded, all discover.GpuInfoList, groups []discover.GpuInfoList) (string, vcDerived) {
 	f := l.f
 	var sb strings.Builder
 	// code variant the model is to mirror: 0 = pinned, 1 = with fix C16-W1 (detected by vcDetectVariant)
@@ -216,12 +220,26 @@ func vcOp(cfg *vcCfg, l *vcLoaded, groups []discover.GpuInfoList) (string, vcDer
 		}
 		fmt.Fprintf(&sb, " %s", optU(ok, sz))
 	}
-	fmt.Fprintf(&sb, " %d", len(groups))
+	// the flat list as PredictServerFit receives it; the model forms the ByLibrary groups itself
+	keys := map[string]int{}
+	ids := map[string]int{}
+	n := 0
 	for _, g := range groups {
-		fmt.Fprintf(&sb, " %s %d", vcLibTok(g[0].Library), len(g))
-		for _, x := range g {
-			fmt.Fprintf(&sb, " %d %d", x.FreeMemory, x.MinimumMemory)
+		n += len(g)
+	}
+	fmt.Fprintf(&sb, " %d", n)
+	for _, x := range all {
+		k := x.Library
+		if x.Variant != "" {
+			k += "_" + x.Variant
 		}
+		if _, ok := keys[k]; !ok {
+			keys[k] = len(keys)
+		}
+		if _, ok := ids[x.ID]; !ok {
+			ids[x.ID] = len(ids)
+		}
+		fmt.Fprintf(&sb, " %d %d %s %d %d", keys[k], ids[x.ID], vcLibTok(x.Library), x.FreeMemory, x.MinimumMemory)
 	}
 	return sb.String(), d
 }
@@ -262,7 +280,7 @@ func vcRun(cfg *vcCfg, l *vcLoaded) (r vcResult) {
 	os.Setenv("OLLAMA_GPU_OVERHEAD", strconv.FormatUint(cfg.Overhead, 10))
 	all := vcGpuList(cfg)
 	r.groups = all.ByLibrary()
-	r.op, r.d = vcOp(cfg, l, r.groups)
+	r.op, r.d = vcOp(cfg, l, all, r.groups)
 	defer func() {
 		if x := recover(); x != nil {
 			r.panicS = fmt.Sprint(x)
@@ -276,7 +294,13 @@ func vcRun(cfg *vcCfg, l *vcLoaded) (r vcResult) {
 		gl := append(discover.GpuInfoList(nil), g...)
 		e := EstimateGPULayers(gl, l.f, l.projs, opts, cfg.Parallel)
 		r.ests = append(r.ests, e)
-		parts = append(parts, vcShowEst(e))
+		// what a runner loaded with this estimate would report to the scheduler
+		srv := &llmServer{gpus: gl, estimate: e}
+		by := make([]uint64, len(gl))
+		for i := range gl {
+			by[i] = srv.EstimatedVRAMByGPU(gl[i].ID)
+		}
+		parts = append(parts, vcShowEst(e)+" B="+commaU(by))
 	}
 	r.impl = strings.Join(parts, " | ")
 	return r
@@ -610,7 +634,7 @@ func vcGenSetup(r *zzverif.Rng, out *zzverif.Out, cfg *vcCfg, blocks int) {
 	}
 	lib2 := lib
 	variant2 := ""
-	if n > 1 && r.Chance(1, 6) { // more than one library group: PredictServerFit's loop
+	if n > 1 && r.Chance(1, 4) { // more than one library group: PredictServerFit's loop
 		if r.Bool() {
 			lib2 = zzverif.Pick(r, vcLibs)
 		} else {
@@ -622,8 +646,19 @@ func vcGenSetup(r *zzverif.Rng, out *zzverif.Out, cfg *vcCfg, blocks int) {
 	cfg.GPUs = nil
 	for i := 0; i < n; i++ {
 		g := vcGPU{Lib: lib, Min: zzverif.Pick(r, minChoices)}
-		if i > 0 && (lib2 != lib || variant2 != "") && r.Bool() {
-			g.Lib, g.Variant = lib2, variant2
+		if i > 0 && (lib2 != lib || variant2 != "") {
+			switch r.Intn(4) { // up to three interleaved Library[_Variant] groups
+			case 0, 1:
+				g.Lib, g.Variant = lib2, variant2
+			case 2:
+				if n > 2 {
+					g.Lib, g.Variant = lib, "v11"
+				}
+			}
+		}
+		if i > 0 && r.Chance(1, 30) { // a repeated GPU ID (EstimatedVRAMByGPU returns the first match)
+			g.ID = strconv.Itoa(r.Intn(i))
+			out.Count("gpus_duplicate_id")
 		}
 		cfg.GPUs = append(cfg.GPUs, g)
 	}
@@ -697,6 +732,11 @@ func (v *vcRunner) emit(cfg *vcCfg, l *vcLoaded) vcResult {
 	out.Count("numgpu_" + vcClassNumGPU(cfg.NumGPU, r.d.blocks))
 	out.Count(fmt.Sprintf("ngpus_%d", len(cfg.GPUs)))
 	out.Count(fmt.Sprintf("groups_%d", len(r.groups)))
+	for _, g := range r.groups {
+		if len(g) == 0 {
+			out.L2("empty-library-group", string(js), "ByLibrary produced an empty group")
+		}
+	}
 	if cfg.Overhead > 0 {
 		out.Count("overhead_nonzero")
 	}
